@@ -7,6 +7,31 @@ HERE = os.path.dirname(os.path.dirname(os.path.abspath(__file__)))
 
 # id -> (category, technique, text, note, design_ref)
 CHECKS = {
+    "C04": (
+        "exploration",
+        "bounded exhaustive enumeration of (option set x predicate vector) states through cli.main; independent parse of every output file and report",
+        "Filter subsets x {none,--discard-trimmed,--discard-untrimmed,--untrimmed-output} x redirect files x output kind {plain, {name}, "
+        "{name1}/{name2}} x {single, paired} x report {full text, minimal} (JSON always), plus scenarios with --info-file/--rest-file/"
+        "--wildcard-file, quality/NextSeq/poly-A trimming, --times 2 and --action none/mask, on a corpus with one read per predicate "
+        "vector (incl. reads trimmed to length 0). Every output file is parsed by the harness: each input read occurs in exactly the "
+        "predicted file exactly once or nowhere; JSON: input = output + sum(filtered), each requested category equals the number of "
+        "reads meeting that fate, output/base-pair figures equal the file contents, quality-trimmed / poly-A-trimmed / with-adapter "
+        "figures equal sums over the reads; text report rows and minimal report columns likewise.",
+        "Trusted: destination model of vf.routing (documented filter chain), harness FASTQ reader.",
+        "DESIGN.md section 3, C04",
+    ),
+    "C05": (
+        "exploration",
+        "bounded exhaustive enumeration of paired-end configurations x pairs with disagreeing mates through cli.main",
+        "{two files, interleaved} input x {two files, interleaved} output x --pair-filter {unset,any,both,first} x every single filter, "
+        "every pair of filters, none and all x {none,--discard-trimmed,--discard-untrimmed,--untrimmed-output} x adapters on {both,R1 "
+        "only,R2 only}; 7 length specifications (L, L1:L2, L1:, :L2); {name} and {name1}/{name2} demultiplexing; --pair-adapters with "
+        "1-2 adapter pairs x every action. Corpus of 300 pairs in which the mates disagree on most predicates and all four combinations "
+        "of adapter presence occur. Every pair of output files (or interleaved file) must hold equally many records with the same ids at "
+        "the same rank, the R2 record must be the processed mate, and the pair's destination must equal the documented combination.",
+        "Trusted: per-read criteria (C11), vf.refpipe pair model.",
+        "DESIGN.md section 3, C05",
+    ),
     "C11": (
         "exploration",
         "bounded exhaustive enumeration of filter-option sets x predicate vectors through cli.main against the documented filter chain",
